@@ -196,7 +196,10 @@ def _(c):
     c.lemma("a_code", a_code == A, using=["K", "A", "pre"], budget_ms=B)
     c.run.safety_using = ["pre", "r_norm", "R_positive", "h_norm", "H_positive", "K", "a_code", "A_def"]
     ecc_arg = 1 - h_norm ** 2 / (a_code * mu)
-    c.lemma("ecc_arg", ecc_arg == E * E, using=["a_code", "h_norm", "H_positive", "E_def", "A_def", "pre"], budget_ms=B)
+    c.lemma("E_def.m", (1 - E * E) * (A * mu) == h2, using=["E_def", "A_def", "pre"], budget_ms=B)
+    c.lemma("h_norm_squared", h_norm ** 2 == h2, using=["h_norm", "H_positive"], budget_ms=B)
+    c.lemma("ecc_arg.m", (1 - ecc_arg) * (A * mu) == h2, using=["a_code", "h_norm_squared", "A_def", "pre"], budget_ms=B)
+    c.lemma("ecc_arg", ecc_arg == E * E, using=["ecc_arg.m", "E_def.m", "A_def", "pre"], budget_ms=B)
     c.run.safety_using = ["pre", "ecc_arg", "E_def"]
     e_code = npx.sqrt(ecc_arg)
     c.lemma("e_code", e_code == E, using=["ecc_arg", "E_def"], budget_ms=B)
@@ -207,8 +210,9 @@ def _(c):
     c.lemma("cos_i_arg", cos_i_arg * H == hz, using=["h_norm", "H_positive"], budget_ms=B)
     c.lemma("cos_i_range", sym.And(cos_i_arg >= -1, cos_i_arg <= 1), using=["cos_i_arg", "H_positive", "S_positive"], budget_ms=B)
     c.run.safety_using = ["pre", "cos_i_range", "p_code", "P_def", "r_norm", "R_positive", "h_norm", "H_positive", "K", "a_code", "A_def", "ecc_arg", "E_def"]
-    c.run.safety_assumed = {"arctan2": "the two arguments of each arctan2 are not both zero (S (sin, cos), R E (sin, cos), R (sin, cos) of an angle with S, R, E > 0): exercised by the bounded stand-in; numpy itself never raises here",
-                            "div": "the one remaining division, by sin(i), is by S/H > 0 (i = arccos(h_z/H) in [0, pi], sin i >= 0 and sin^2 i = S^2/H^2 > 0 as the orbit is not equatorial): stated as lemma `sin_inc` right after the call and exercised by the bounded stand-in"}
+    c.lemma("sin_inc_arg", cos_i_arg * cos_i_arg * h2 + (hx * hx + hy * hy) == h2, using=["cos_i_arg", "H_positive"], budget_ms=B)
+    c.run.safety_using = ["pre", "cos_i_range", "sin_inc_arg", "S_positive", "p_code", "P_def", "r_norm", "R_positive", "h_norm", "H_positive", "K", "a_code", "A_def", "ecc_arg", "E_def"]
+    c.run.safety_assumed = {"arctan2": "the two arguments of each arctan2 are not both zero (S (sin, cos), R E (sin, cos), R (sin, cos) of an angle with S, R, E > 0): exercised by the bounded stand-in; numpy itself never raises here"}
     k = f([X, Y, Z, VX, VY, VZ])
     c.run.safety_assumed = {}
     c.lemma("elements.a", k[0] == A, using=["a_code"], budget_ms=B)
@@ -219,3 +223,97 @@ def _(c):
     c.lemma("cos_inc", ci * H == hz, using=["ci", "cos_i_arg", "@depth=2"], budget_ms=B)
     c.lemma("sin_inc", si * H == S, using=["si", "ci", "cos_inc", "H_positive", "S_positive", "@depth=2"], budget_ms=B)
     c.lemma("node", sym.And(cO * S == -hy, sO * S == hx), using=["cO", "sO", "S_positive", "@depth=2"], budget_ms=B)
+    # true anomaly: atan2(sqrt(p/mu) (v.r), p - |r|), of radius R E
+    root = npx.sqrt(p_code / mu)
+    Q = c.ghost("Q", root)
+    c.lemma("Q_def", sym.And(Q > 0, Q * Q * mu == P), using=["Q", "p_code", "P_def", "pre", "@depth=2"], budget_ms=B)
+    vdotr = npx.dot(vv, rv)
+    nu_y, nu_x = root * vdotr, p_code - r_norm
+    c.lemma("nu_y", nu_y == Q * rdv, using=["Q"], budget_ms=B)
+    c.lemma("nu_x", nu_x == P - R, using=["p_code", "r_norm"], budget_ms=B)
+    RE = c.ghost("RE", R * E)
+    c.lemma("RE_positive", sym.And(RE > 0, RE * RE * mu == (P - R) * (P - R) * mu + P * rdv * rdv), using=["RE", "R_positive", "E_def", "nu_radius"], budget_ms=B)
+    c.lemma("nu_rho", (Q * rdv) * (Q * rdv) + (P - R) * (P - R) == RE * RE, using=["RE_positive", "Q_def", "pre"], budget_ms=B)
+    nu_raw = npx.arctan2(nu_y, nu_x)       # the same terms as in the source: the same angle
+    c.lemma("anomaly", sym.And(sym.cos(nu_raw) * RE == P - R, sym.sin(nu_raw) * RE == Q * rdv), using=["~nu_y", "~nu_x", "nu_rho", "RE_positive", "@depth=2"], budget_ms=B)
+    c.lemma("anomaly.k", sym.And(cn * RE == P - R, sn * RE == Q * rdv), using=["anomaly", "cn", "sn", "@depth=2"], budget_ms=B)
+    # argument of latitude: atan2(z / sin i, x cos W + y sin W), of radius R
+    aol_y, aol_x = Z / sym.sin(k[2]), X * sym.cos(k[3]) + Y * sym.sin(k[3])
+    c.lemma("aol_y", aol_y * si == Z, using=["si", "sin_inc", "S_positive", "H_positive", "@depth=2"], budget_ms=B)
+    c.lemma("aol_x", aol_x == X * cO + Y * sO, using=["cO", "sO"], budget_ms=B)
+    c.lemma("node_unit", cO * cO + sO * sO == 1, using=["node", "S_positive"], budget_ms=B)
+    c.lemma("inc_unit", ci * ci + si * si == 1, using=["cos_inc", "sin_inc", "S_positive", "H_positive"], budget_ms=B)
+    GY = c.ghost("GY", aol_y)
+    c.lemma("GY_def", GY * si == Z, using=["GY", "aol_y"], budget_ms=B)
+    c.lemma("z_in_plane", Z * ci == -(X * sO - Y * cO) * si, using=["h_perp_r", "node", "cos_inc", "sin_inc", "S_positive", "H_positive"], budget_ms=B)
+    c.lemma("aol_rho", (X * cO + Y * sO) * (X * cO + Y * sO) + GY * GY == R * R, using=["GY_def", "z_in_plane", "node_unit", "inc_unit", "R_positive", "sin_inc", "S_positive", "H_positive"], budget_ms=B)
+    aol = npx.arctan2(aol_y, aol_x)
+    ca, sa = c.ghost("ca", sym.cos(aol)), c.ghost("sa", sym.sin(aol))
+    c.lemma("aol", sym.And(ca * R == X * cO + Y * sO, sa * R == GY), using=["ca", "sa", "~aol_x", "~GY", "aol_rho", "R_positive", "@depth=2"], budget_ms=B)
+    c.lemma("aol_unit", ca * ca + sa * sa == 1, using=["ca", "sa", "@depth=2"], budget_ms=B)
+    c.lemma("nu_unit", cn * cn + sn * sn == 1, using=["cn", "sn", "@depth=2"], budget_ms=B)
+    # omega + nu as the source recombines them: (aol - nu) % 2 pi + nu % 2 pi has the cosine and sine of aol
+    u_back = k[4] + k[5]
+    cub, sub = c.ghost("cub", sym.cos(u_back)), c.ghost("sub", sym.sin(u_back))
+    c.lemma("u_back", sym.And(cub == ca, sub == sa), using=["cub", "sub", "ca", "sa", "cn", "sn", "nu_unit", "@depth=2"], budget_ms=B)
+    # back to cartesian
+    p_b = k[0] * (1 - k[1] ** 2)
+    c.lemma("p_back", p_b == P, using=["elements.a", "elements.e", "P"], budget_ms=B)
+    den_b = 1 + k[1] * sym.cos(k[5])
+    c.lemma("den_back", den_b * R == P, using=["elements.e", "cn", "anomaly.k", "RE", "R_positive", "E_def"], budget_ms=B)
+    c.run.safety_using = ["pre", "p_back", "den_back", "R_positive", "P_def"]
+    r_b = p_b / den_b
+    c.lemma("radius_back", r_b == R, using=["p_back", "den_back", "R_positive", "P_def"], budget_ms=B)
+    c.run.safety_using = ["pre", "p_back", "den_back", "radius_back", "R_positive", "P_def"]
+    y = g(list(k))
+    c.lemma("position.2", y[2] == Z, using=["~radius_back", "si", "sub", "u_back", "aol", "GY_def", "R_positive", "@depth=2"], budget_ms=B)
+    # x and y: R (cos W cos u - sin W sin u cos i) with cos u = (x cos W + y sin W)/R, sin u = z/(R sin i), and z cos i = -(x sin W - y cos W) sin i
+    c.lemma("sa_ci", sa * R * ci == -(X * sO - Y * cO), using=["aol", "GY_def", "z_in_plane", "sin_inc", "S_positive", "H_positive"], budget_ms=B)
+    c.lemma("position.0.g", R * (cO * ca - sO * sa * ci) == X, using=["aol", "sa_ci", "node_unit"], budget_ms=B)
+    c.lemma("position.1.g", R * (sO * ca + cO * sa * ci) == Y, using=["aol", "sa_ci", "node_unit"], budget_ms=B)
+    c.lemma("position.0", y[0] == X, using=["~radius_back", "cO", "sO", "ci", "cub", "sub", "u_back", "position.0.g", "@depth=2"], budget_ms=B)
+    c.lemma("position.1", y[1] == Y, using=["~radius_back", "cO", "sO", "ci", "cub", "sub", "u_back", "position.1.g", "@depth=2"], budget_ms=B)
+    c.ensure("position", sym.And(y[0] == X, y[1] == Y, y[2] == Z), using=["position.0", "position.1", "position.2"], budget_ms=B)
+    # velocity: (r.v / R^2) r + (h x r) / R^2 (BAC-CAB), which the source writes as  pos * h e sin(nu) / (r p)  -+  (h / r) (transverse direction)
+    h_b = npx.sqrt(mu * p_b)
+    c.lemma("h_back", h_b == H, using=["p_back", "P_def", "H_positive", "@depth=2"], budget_ms=B)
+    c.lemma("HQ", H * Q == P, using=["Q_def", "P_def", "H_positive"], budget_ms=B)
+    c.lemma("radial_rate", H * E * sn * R == P * rdv, using=["anomaly.k", "RE", "HQ", "R_positive", "E_def"], budget_ms=B)
+    c.lemma("bac_cab.0", r2 * VX == X * rdv + (hy * Z - hz * Y), using=[], budget_ms=B)
+    c.lemma("bac_cab.1", r2 * VY == Y * rdv + (hz * X - hx * Z), using=[], budget_ms=B)
+    c.lemma("bac_cab.2", r2 * VZ == Z * rdv + (hx * Y - hy * X), using=[], budget_ms=B)
+    geo = ["aol", "GY_def", "cos_inc", "sin_inc", "node", "h_perp_r", "S_positive", "H_positive", "R_positive"]
+    c.lemma("b1", (H * R * sa) * S == H * H * Z, using=["aol", "GY_def", "sin_inc", "S_positive", "H_positive"], budget_ms=B)
+    c.lemma("b2", (R * ca) * S == Y * hx - X * hy, using=["aol", "node"], budget_ms=B)
+    S2 = hx * hx + hy * hy
+    c.lemma("t0.num", H * H * Z * hy - hx * hz * (Y * hx - X * hy) == (hy * Z - hz * Y) * S2, using=["h_perp_r", "H_positive"], budget_ms=B)
+    c.lemma("t1.num", -(H * H * Z * hx) - hy * hz * (Y * hx - X * hy) == (hz * X - hx * Z) * S2, using=["h_perp_r", "H_positive"], budget_ms=B)
+    tA, tB = c.ghost("tA", H * R * sa), c.ghost("tB", R * ca)
+    c.lemma("b1.g", tA * S == H * H * Z, using=["b1", "tA"], budget_ms=B)
+    c.lemma("b2.g", tB * S == Y * hx - X * hy, using=["b2", "tB"], budget_ms=B)
+    c.lemma("t0.scaled", -(tA * S * (cO * S) + (sO * S) * (tB * S) * (ci * H)) == (hy * Z - hz * Y) * S2, using=["b1.g", "b2.g", "cos_inc", "node", "t0.num"], budget_ms=B)
+    c.lemma("t1.scaled", -(tA * S * (sO * S) - (cO * S) * (tB * S) * (ci * H)) == (hz * X - hx * Z) * S2, using=["b1.g", "b2.g", "cos_inc", "node", "t1.num"], budget_ms=B)
+    c.lemma("transverse.0.g", -(tA * cO + sO * tB * ci * H) == hy * Z - hz * Y, using=["t0.scaled", "S_positive"], budget_ms=B)
+    c.lemma("transverse.1.g", -(tA * sO - cO * tB * ci * H) == hz * X - hx * Z, using=["t1.scaled", "S_positive"], budget_ms=B)
+    c.lemma("transverse.0", -(H * R) * (cO * sa + sO * ca * ci) == hy * Z - hz * Y, using=["transverse.0.g", "tA", "tB"], budget_ms=B)
+    c.lemma("transverse.1", -(H * R) * (sO * sa - cO * ca * ci) == hz * X - hx * Z, using=["transverse.1.g", "tA", "tB"], budget_ms=B)
+    c.lemma("transverse.2", (H * R) * (si * ca) == hx * Y - hy * X, using=geo, budget_ms=B)
+    # the three velocity components, on ghost names first
+    rad = c.ghost("rad", H * E * sn / (R * P))
+    c.lemma("rad_def", rad * (R * R) == rdv, using=["rad", "radial_rate", "R_positive", "P_def"], budget_ms=B)
+    tr = c.ghost("tr", H / R)
+    c.lemma("tr_def", tr * R == H, using=["tr", "R_positive"], budget_ms=B)
+    c.lemma("velocity.0.g", X * rad - tr * (cO * sa + sO * ca * ci) == VX, using=["rad_def", "tr_def", "transverse.0", "bac_cab.0", "R_positive"], budget_ms=B)
+    c.lemma("velocity.1.g", Y * rad - tr * (sO * sa - cO * ca * ci) == VY, using=["rad_def", "tr_def", "transverse.1", "bac_cab.1", "R_positive"], budget_ms=B)
+    c.lemma("velocity.2.g", Z * rad + tr * si * ca == VZ, using=["rad_def", "tr_def", "transverse.2", "bac_cab.2", "R_positive"], budget_ms=B)
+    # ... then on the terms the source built: pos * h * e / (r * p) * sin(nu) -+ h / r * (...)
+    rad_code = [y[j] * h_b * k[1] / (r_b * p_b) * sym.sin(k[5]) for j in range(3)]
+    for j, Pj in enumerate((X, Y, Z)):
+        c.lemma(f"radial_term.{j}", rad_code[j] == Pj * rad, using=[f"position.{j}", "h_back", "elements.e", "radius_back", "p_back", "sn", "rad", "R_positive", "P_def", "@depth=2"], budget_ms=B)
+    tr_code = h_b / r_b
+    c.lemma("transverse_factor", tr_code == tr, using=["h_back", "radius_back", "tr", "R_positive", "@depth=2"], budget_ms=B)
+    common = ["~transverse_factor", "cO", "sO", "ci", "si", "cub", "sub", "u_back", "@depth=2"]
+    c.lemma("velocity.0", y[3] == VX, using=["~radial_term.0", "velocity.0.g"] + common, budget_ms=B)
+    c.lemma("velocity.1", y[4] == VY, using=["~radial_term.1", "velocity.1.g"] + common, budget_ms=B)
+    c.lemma("velocity.2", y[5] == VZ, using=["~radial_term.2", "velocity.2.g"] + common, budget_ms=B)
+    c.ensure("velocity", sym.And(y[3] == VX, y[4] == VY, y[5] == VZ), using=["velocity.0", "velocity.1", "velocity.2"], budget_ms=B)
